@@ -109,6 +109,10 @@ def alphabet(kind):
         ops.append(('subscribe', 1, (1,), 0, '', 'c'))
         ops.append(('subscribe', 1, (1,), None, '', 'c'))
         ops.append(('unsubscribe', 1, (1,), None, '', None))
+        # a class declaration (implementedBy(K0)) as the required key: found through the __sro__ of class / instance declarations only
+        ops.append(('subscribe', 0, (5,), 0, '', 'a'))
+        ops.append(('subscribe', 0, (5,), None, '', 'b'))
+        ops.append(('unsubscribe', 0, (5,), 0, '', None))
     else:  # 'arity'
         for req in ((), (1, 1), (2, 1), (0, 2), (2, 2)):
             for pi in (None, 0, 1):
@@ -230,6 +234,10 @@ HARNESSES = [
             bounds='arity 0 and arity 2 keys ((R0,R0), (R1,R0), (None,R1), (R1,R1)): every history of <=2 (thorough 3) ops from 50; arity-2 lookups '
                    'over 4x4 looked-up specifications', oracle=_OR),
 ]
+
+for _k in HARNESSES:
+    if _k.name in ('s_subscriptions',):
+        _k.stub_kernel = True      # drives private functions / extension points with stub containers (see vlib.runner)
 
 MANIFEST = {
     'engine': 'symx',
